@@ -674,11 +674,27 @@ func ChoiceHeavy(r *rand.Rand) *Grammar {
 			}
 			e := &Expr{K: KAlt}
 			pi := 0
-			next := func() rune { c := alpha[perm[pi%len(perm)]]; pi++; return c }
+			next := func() rune {
+				for {
+					c := alpha[perm[pi%len(perm)]]
+					pi++
+					if !(wide && c >= '0' && c <= '9') || pi > 3*len(perm) {
+						return c
+					}
+				}
+			}
 			for i := 0; i < n; i++ {
 				c1 := next()
 				var first *Expr
-				switch r.Intn(5) {
+				switch r.Intn(6) {
+				case 5:
+					// an inner choice whose first branch starts with a small range and whose second branch starts elsewhere
+					c2 := next()
+					rg := &Expr{K: KClass, Items: []Item{{c1, clampHi(c1, c1+1)}}}
+					first = Alt(Seq(rg, term()), Seq(&Expr{K: KLit, Text: []rune{c2}}, term()))
+					if r.Intn(2) == 0 {
+						first = Un(KCapture, first)
+					}
 				case 0:
 					first = Un(KCapture, &Expr{K: KLit, Text: []rune{c1}})
 				case 1:
@@ -695,6 +711,10 @@ func ChoiceHeavy(r *rand.Rand) *Grammar {
 					kids = append(kids, &Expr{K: KAction})
 				}
 				e.Kids = append(e.Kids, &Expr{K: KSeq, Kids: kids})
+			}
+			if wide && r.Intn(2) == 0 {
+				// one alternative with many first characters: it becomes the switch's default, the others real cases
+				e.Kids = append(e.Kids, Seq(&Expr{K: KClass, Items: []Item{{'0', '9'}}}, Un(KQuery, term())))
 			}
 			return e
 		}
